@@ -252,7 +252,9 @@ theorem sends_runFrame (p : Prog) (hh : Hist) (s : St) (f : Frame) : Sends s (ru
     split
     · exact of _ (GcStep.refl s)
     · split
-      · exact of _ ((gc_despawn1 s _).trans (by gsame))
+      · split
+        · exact of _ ((gc_despawn1 s _).trans (by gsame))
+        · exact of _ (by gsame)
       · split <;> exact of _ (by gsame)
   | poll => exact of _ (by simp only [runFrame, doPoll]; gsame)
 
@@ -301,9 +303,14 @@ theorem gc_takes_oldest (s : St) (e : Nat) (es : List Nat) (h : s.autoChan = e :
 theorem gc_stops_when_empty (s : St) (h : s.autoChan = []) : doGc s = s := by simp [doGc, h]
 
 /-- A scheduled despawn of a live, childless entity kills it (after expanding its children). -/
-theorem despawn_work_kills (s : St) (e : Nat) (work : List (Nat × Bool)) :
+theorem despawn_work_kills (s : St) (e : Nat) (work : List (Nat × Bool)) (hw : s.wq = []) :
     doDespawnWork s ((e, true) :: work) = (despawn1 s e).push [.despawnWork work] := by
-  simp [doDespawnWork]
+  simp [doDespawnWork, hw]
+
+/-- `World::despawn` applies the world's command queue before it removes the entity. -/
+theorem despawn_work_flushes_first (s : St) (e : Nat) (work : List (Nat × Bool)) (hw : s.wq ≠ []) :
+    doDespawnWork s ((e, true) :: work) = s.push [.flush, .despawnWork ((e, true) :: work)] := by
+  simp [doDespawnWork, hw]
 
 theorem despawn_work_ignores_dead (s : St) (e : Nat) (work : List (Nat × Bool)) (h : s.alive e = false) :
     doDespawnWork s ((e, false) :: work) = s.push [.despawnWork work] := by
